@@ -2,13 +2,14 @@
 from props._e3 import make
 
 globals().update(make(
-    'C17', ('batch', 'buf', 'cons'),
+    'C17', ('batch', 'buf', 'cons', 'route'),
     [('batching', 8), ('buffers', 2), ('general', 1)],
     'Oracle after every event, per batcher: arrival leaf sequence (receive callback, batches front to back) == '
     'departure leaf sequence (what the next holding device receives from it) + leaves still inside in the order '
     '[waiting to leave, batch in progress, input left to unpack]; every emitted batch has exactly n parts, single '
     'mode emits only single parts; nothing is accepted while an output is waiting to leave; buffer level and sink '
-    'counts count every leaf (C05 and census oracles on). Non-trivial = an input batch whose size does not divide the '
+    'counts count every leaf (C05 and census oracles on); every routing-history update on a batch reached all its '
+    'leaves: each leaf history is a configured route ending at its holder (routing oracle on). Non-trivial = an input batch whose size does not divide the '
     'output size was split across two output batches (a batch in progress coexisted with unpacked input left) while '
     'the consumer was blocked; distinct = SHA-1 of the canonical spec JSON.',
     lambda mon, case: any(b['emitted'] >= 2 for b in mon.bat.values()) and mon.c['handovers_after_block'] > 0,
